@@ -80,6 +80,23 @@ def s1(ctx, rep):
                       "numpy scalars in a report raise TypeError (and other objects are asked for .item())")
     w = P.func("syne_tune.report._report_logger")
     r = P.func("syne_tune.report.retrieve")
+    # the user's metrics reach the writer through `**`: a named parameter of a function on that path would swallow the metric of
+    # that name (and let it steer the function) instead of reporting it
+    rc_ = P.method("Reporter", "__call__")
+    captured = []
+    for x in walk_shallow(rc_.node):
+        if isinstance(x, ast.Call) and any(k_.arg is None and isinstance(k_.value, ast.Name) and k_.value.id == (rc_.node.args.kwarg.arg if rc_.node.args.kwarg else "")
+                                            for k_ in x.keywords) and isinstance(x.func, ast.Name):
+            g_ = P.resolve_name(rc_.module, x.func.id, None)
+            if isinstance(g_, FuncInfo):
+                a_ = g_.node.args
+                named = [y.arg for y in a_.posonlyargs + a_.args + a_.kwonlyargs]
+                captured += [(x, g_, named)] if named else []
+                rep.put(not named, "S1", "agreement", f"{g_.name}: a function that takes the reported metrics by ** has no named parameter", g_, x, "",
+                        f"{g_.name} has the named parameter(s) {named}: a metric the user reports under that name is bound to the parameter - it is "
+                        "missing from the report (and changes what is printed)")
+    if captured:
+        return
     prints = [x for x in walk_shallow(w.node) if isinstance(x, ast.Call) and isinstance(x.func, ast.Name) and x.func.id == "print"]
     if len(prints) != 1 or not prints[0].args:
         raise AnchorError("_report_logger: expected exactly one print(...)")
